@@ -56,6 +56,33 @@ def l(): return dds.keep("/g/base", base) + 1
 def r(): return dds.keep("/g/base", base) + 2
 def top(): return dds.keep("/g/l", l) + dds.keep("/g/r", r)
 ''',
+    "annotated_called_directly_then_loaded": '''
+def raw(): return 1
+@dds.data_function("/g/stage")
+def stage(): return dds.keep("/g/raw", raw) + 1
+def other(): return 7
+def summary(): return dds.load("/g/other") + 1
+def report(): return stage() + dds.load("/g/raw")
+def top():
+    o = dds.keep("/g/other", other)
+    s = dds.keep("/g/summary", summary)
+    return dds.keep("/g/report", report)
+''',
+    "load_of_grandchild_keep": '''
+def leaf(): return 1
+def mid(): return dds.keep("/g/leaf", leaf) + 1
+def outer(): return dds.keep("/g/mid", mid) + dds.load("/g/leaf")
+def top(): return dds.keep("/g/outer", outer)
+''',
+}
+# ground truth written from the source text of the shapes (independent of what the analysis reports): the dashed edges
+DASHED = {
+    "chain3": set(), "shared_with_sibling": set(), "helper_between": set(), "runtime_args": set(), "diamond": set(),
+    "loads": {("/g/prod", "/g/reader")},
+    "annotated_called_directly_then_loaded": {("/g/other", "/g/summary"), ("/g/raw", "/g/report")},
+    # the name `mid` inside dds.keep("/g/mid", mid) is itself analysed as a (non-kept) reference to mid, so outer reaches
+    # the keep of /g/leaf without crossing a kept function: the pair has a solid edge, and an ordered pair carries one edge
+    "load_of_grandchild_keep": set(),
 }
 
 
@@ -88,7 +115,8 @@ def spec_of(fis):
                 walk(c)
 
     walk(fis)
-    return nodes, solid, dashed
+    # an ordered pair carries one edge: where both relations hold the solid edge is the one drawn
+    return nodes, solid, dashed - solid
 
 
 def acyclic(edges):
@@ -166,6 +194,8 @@ def main():
                 violations.append({"what": "[%s] solid edges %s, expected %s" % (name, sorted(solid), sorted(ss))})
             if dashed != sd:
                 violations.append({"what": "[%s] dashed edges %s, expected %s" % (name, sorted(dashed), sorted(sd))})
+            if dashed != DASHED[name]:
+                violations.append({"what": "[%s] dashed edges %s, the source text has these loads by kept functions: %s" % (name, sorted(dashed), sorted(DASHED[name]))})
             if not acyclic(solid | dashed | dotted):
                 violations.append({"what": "[%s] the graph has a cycle" % name})
             kept_with_args = set()
@@ -188,7 +218,7 @@ def main():
         sys.path.remove(d)
         shutil.rmtree(d, ignore_errors=True)
         dds.set_store("memory")
-    print(json.dumps({"scope": "%d pipeline shapes (chain of 3, shared sub-node with extra sibling, helper between keeps, run-time-argument keep, loads, diamond)" % len(SHAPES),
+    print(json.dumps({"scope": "%d pipeline shapes (chain of 3, shared sub-node with extra sibling, helper between keeps, run-time-argument keep, loads, diamond, annotated kept function called directly whose kept path the caller loads, load of a grandchild's keep); dashed edges also against a hand-written ground truth per shape" % len(SHAPES),
                       "evaluations": evals, "distinct_nontrivial": evals, "rule": "one case per pipeline shape; graph compared with the executable spec computed from the same interaction tree",
                       "samples": samples, "violations": violations[:10], "known_hits": []}))
 
